@@ -184,6 +184,14 @@ def run_scenario(scenario, chooser=None, config_kwargs=None, max_steps=100000,
         client.on_event = on_event
         cfg = TransferConfig(**(config_kwargs or {}))
         run.config = cfg
+        # what the USER asked for: the constructor's documented defaults overlaid with the keyword
+        # arguments given (the limits the monitors hold the manager to -- not what the config
+        # object ended up holding, which is the code under test)
+        import inspect
+        want = {k: p.default for k, p in inspect.signature(TransferConfig.__init__).parameters.items()
+                if k != 'self' and p.default is not inspect.Parameter.empty}
+        want.update(config_kwargs or {})
+        run.requested = type('Requested', (), want)()
         osu = LoggingOSUtils(I, OSUtils(), fs_fault)
         execs = []
         if nonthreaded:
